@@ -188,6 +188,20 @@ CLAIMED = {
     note="Trusted: as C07. The theorem covers two contexts at handler granularity; three-context histories are covered by correspondence and oracle only; a reconnect is assumed only after both "
          "ends have closed. One defect below handler granularity (removal notice overtaking the subscribe reply: stale subscription) was found by the thread-level oracle and repaired by a fix: commit.",
     technique="per-signal protocol invariant over a two-node transition system; H2 simulation + deterministic scheduler"),
+ "C17": dict(category="proof", design_ref="7 (C17)",
+    text="PARTIAL. 14 Coq theorems (all closed; all inputs / histories / interleavings) on an executable model of the parts of the property that are logic: (a) text-header attribute codec "
+         "(CPython repr for str/int and the reader's regex substitution): parse_attr (py_repr a) = a, refuted for the pinned reader on non-printable characters beyond U+FFFF and proved for "
+         "the repaired reader; header line splitting; (b) special-column layout: index columns = row-major coordinates (what the reader verifies), unflatten (flatten a) = a for every "
+         "shape, scale columns; (c) datastore over a path map: make_folder never returns an existing folder, writes without overwrite never change an existing path, find_latest_folder "
+         "returns the greatest (date,time) for the label (fixed-width decimal order = numeric order); (d) recorder split into Swap (under the lock) and Write: at every moment of every "
+         "interleaving file ++ being written ++ queued = recorded per dataset, after close the file holds the recorded blocks once each in order, the thread ends within three steps. "
+         "Tie: the real dataset/datastore functions on generated datasets through the five file chains in a scratch store (equality oracle), every header line and ~1500 damaged attribute "
+         "texts against (a), all 84 outer shapes against (b), 300 store histories against (c); the real HDF5 recorder (real h5py) under the deterministic scheduler with 1-3 recording "
+         "threads and line-level switch points against (d).",
+    note="PARTIAL: value fidelity of h5py/HDF5, numpy savetxt/loadtxt/reshape, float()/repr(float), str.isprintable, file encoding and OS exclusive-create are assumed and only exercised. "
+         "Float attributes are atoms under stated hypotheses; int64 beyond 2**53 via text, NUL/surrogates via HDF5, NaN, record() concurrent with close(), cross-process races are outside. "
+         "Trusted: Coq kernel+vm_compute, hand model, harness c17.py, dsched. Two defects found (numpy-scalar repr in text headers; \\U escapes not parsed) were repaired by fix: commits.",
+    technique="round-trip / order / invariant proofs by induction over an executable model; correspondence by vm_compute; recorder trace acceptance under a deterministic scheduler"),
 }
 
 REASONS = {"C17": "package being built (model of header codec, datastore, recorder; see DESIGN.md 7 C17) - will be claimed as partial"}
